@@ -205,6 +205,38 @@ impl Samples for Inner {
     }
 }
 
+/// Two different types with the same (schema) name, used in one API: schemars
+/// publishes the second as `Item2`; each endpoint must still be documented with
+/// its own type's schema.
+mod inv {
+    use super::*;
+    #[derive(Serialize, Deserialize, JsonSchema, Clone, Debug)]
+    pub struct Item {
+        pub sku: String,
+        pub count: u32,
+    }
+}
+mod bill {
+    use super::*;
+    #[derive(Serialize, Deserialize, JsonSchema, Clone, Debug)]
+    pub struct Item {
+        pub amount: i64,
+        pub paid: bool,
+    }
+}
+desc_struct!(inv::Item { "sku" => String, false; "count" => u32, false });
+desc_struct!(bill::Item { "amount" => i64, false; "paid" => bool, false });
+impl Samples for inv::Item {
+    fn samples() -> Vec<Self> {
+        vec![inv::Item { sku: "widget".into(), count: 3 }, inv::Item { sku: String::new(), count: u32::MAX }]
+    }
+}
+impl Samples for bill::Item {
+    fn samples() -> Vec<Self> {
+        vec![bill::Item { amount: -5, paid: false }, bill::Item { amount: i64::MAX, paid: true }]
+    }
+}
+
 #[derive(Serialize, Deserialize, JsonSchema, Clone, Debug)]
 struct NewU(u32);
 impl TyDesc for NewU {
@@ -603,6 +635,10 @@ ep_sample!(ra_vec_u16, "/ra/vec_u16", Vec<u16>);
 ep_sample!(ra_vec_inner, "/ra/vec_inner", Vec<Inner>);
 ep_sample!(ra_map_u8, "/ra/map_u8", BTreeMap<String, u8>);
 ep_sample!(ra_inner, "/ra/inner", Inner);
+ep_sample!(ra_inv_item, "/ra/inv_item", inv::Item);
+ep_sample!(ra_bill_item, "/ra/bill_item", bill::Item);
+ep_sample!(ra_vec_bill, "/ra/vec_bill_item", Vec<bill::Item>);
+ep_sample!(ra_vec_inv, "/ra/vec_inv_item", Vec<inv::Item>);
 ep_sample!(ra_outer, "/ra/outer", Outer);
 ep_sample!(ra_unit, "/ra/unit", ());
 ep_sample!(ra_nz, "/ra/nz", NonZeroU32);
@@ -635,6 +671,8 @@ ep_query!(q_nz, "/q/nz", QNz);
 
 // typed bodies
 ep_body!(b_inner, "/b/inner", Inner);
+ep_body!(b_bill_item, "/b/bill_item", bill::Item);
+ep_body!(b_inv_item, "/b/inv_item", inv::Item);
 ep_body!(b_outer, "/b/outer", Outer);
 ep_body!(b_dflt, "/b/dflt", Dflt);
 ep_body!(b_rename, "/b/rename", Renamed);
@@ -889,6 +927,10 @@ fn build_api() -> (ApiDescription<()>, Vec<Ep>) {
     reg_sample!(ra_vec_inner, "/ra/vec_inner", Vec<Inner>);
     reg_sample!(ra_map_u8, "/ra/map_u8", BTreeMap<String, u8>);
     reg_sample!(ra_inner, "/ra/inner", Inner);
+    reg_sample!(ra_inv_item, "/ra/inv_item", inv::Item);
+    reg_sample!(ra_bill_item, "/ra/bill_item", bill::Item);
+    reg_sample!(ra_vec_bill, "/ra/vec_bill_item", Vec<bill::Item>);
+    reg_sample!(ra_vec_inv, "/ra/vec_inv_item", Vec<inv::Item>);
     reg_sample!(ra_outer, "/ra/outer", Outer);
     reg_sample!(ra_unit, "/ra/unit", ());
     reg_sample!(ra_nz, "/ra/nz", NonZeroU32);
@@ -923,6 +965,8 @@ fn build_api() -> (ApiDescription<()>, Vec<Ep>) {
     reg_query!(q_uuid, "/q/uuid", QUuid);
     reg_query!(q_nz, "/q/nz", QNz);
     reg_body!(b_inner, "/b/inner", Inner);
+    reg_body!(b_bill_item, "/b/bill_item", bill::Item);
+    reg_body!(b_inv_item, "/b/inv_item", inv::Item);
     reg_body!(b_outer, "/b/outer", Outer);
     reg_body!(b_dflt, "/b/dflt", Dflt);
     reg_body!(b_rename, "/b/rename", Renamed);
